@@ -209,4 +209,9 @@ def run(prog, rep, tier, repo):
         else:
             rep.ok('horner', key, 'fold(rev(coef), 0, |acc, c| acc*x + c) per x: c0 + c1 x + ... + cd x^d')
     rep.floor('horner', 1, 'predict')
+    # ---- D4 the fit sees every observation: a value filter on the way (skipping "missing" data, say) must keep every finite value --
+    # f64::is_normal is false for 0.0, so a filter written with it drops the observations whose abscissa or response is exactly zero
+    from ..precond import check_data_filters
+    check_data_filters(prog, rep, 'data-filter', [P + '::fit', P + '::predict'], what='and the fit is the least-squares polynomial of a subset of the data')
+    rep.floor('data-filter', 1, 'scan of fit / predict')
     return {}
